@@ -22,6 +22,8 @@ var osConsts = map[string]int64{
 	"os.O_SYNC": int64(os.O_SYNC), "os.O_TRUNC": int64(os.O_TRUNC),
 	"os.ModePerm": int64(os.ModePerm), "os.ModeSetuid": int64(os.ModeSetuid), "os.ModeSetgid": int64(os.ModeSetgid),
 	"os.ModeSticky": int64(os.ModeSticky), "os.ModeDir": int64(os.ModeDir), "os.ModeTemporary": int64(os.ModeTemporary),
+	"syscall.O_RDWR": int64(os.O_RDWR), "syscall.O_WRONLY": int64(os.O_WRONLY), "syscall.O_APPEND": int64(os.O_APPEND),
+	"syscall.O_CREAT": int64(os.O_CREATE), "syscall.O_TRUNC": int64(os.O_TRUNC), "syscall.O_EXCL": int64(os.O_EXCL),
 }
 
 func evalConst(e ast.Expr) (int64, error) {
@@ -201,6 +203,134 @@ func genConsts(repo, out string) error {
 		return nil
 	}
 	return os.WriteFile(out, b.Bytes(), 0o644)
+}
+
+func init() { extraConsts = append(extraConsts, memfsConsts) }
+
+// cond of the first `if <cond> { ... NewReadOnlyFileHandle ... }` in fn
+func roHandleCond(fd *ast.FuncDecl) ast.Expr {
+	var out ast.Expr
+	ast.Inspect(fd, func(n ast.Node) bool {
+		is, ok := n.(*ast.IfStmt)
+		if !ok || out != nil {
+			return true
+		}
+		found := false
+		ast.Inspect(is.Body, func(m ast.Node) bool {
+			if se, ok := m.(*ast.SelectorExpr); ok && se.Sel.Name == "NewReadOnlyFileHandle" {
+				found = true
+			}
+			return true
+		})
+		if found {
+			out = is.Cond
+		}
+		return true
+	})
+	return out
+}
+
+func memfsConsts(repo string, add func(string, int64, string)) error {
+	for _, k := range []string{"O_RDONLY", "O_WRONLY", "O_RDWR", "O_APPEND", "O_CREATE", "O_EXCL", "O_SYNC", "O_TRUNC"} {
+		add(strings.ToLower(k), osConsts["os."+k], "os."+k+" on the build platform")
+	}
+	add("mode_dir", osConsts["os.ModeDir"], "os.ModeDir")
+	add("mode_temporary", osConsts["os.ModeTemporary"], "os.ModeTemporary")
+	m, err := parseSrc(repo, "memmap.go")
+	if err != nil {
+		return err
+	}
+	// const chmodBits = ...
+	found := false
+	for _, d := range m.file.Decls {
+		gd, ok := d.(*ast.GenDecl)
+		if !ok || gd.Tok != token.CONST {
+			continue
+		}
+		for _, sp := range gd.Specs {
+			vs := sp.(*ast.ValueSpec)
+			for i, n := range vs.Names {
+				if n.Name == "chmodBits" && i < len(vs.Values) {
+					v, err := evalConst(vs.Values[i])
+					if err != nil {
+						return fmt.Errorf("memmap.go: chmodBits: %v", err)
+					}
+					add("chmod_bits", v, "memmap.go const chmodBits")
+					found = true
+				}
+			}
+		}
+	}
+	if !found {
+		return fmt.Errorf("memmap.go: const chmodBits not found")
+	}
+	// MemMapFs.OpenFile: the condition under which the handle is read-only.
+	//   flag&(M) == 0          -> mask M
+	//   flag == os.O_RDONLY    -> mask -1 (read-only only when no bit at all is set)
+	fd := m.fn("MemMapFs", "OpenFile")
+	if fd == nil {
+		return fmt.Errorf("memmap.go: MemMapFs.OpenFile not found")
+	}
+	cond := roHandleCond(fd)
+	be, ok := cond.(*ast.BinaryExpr)
+	if cond == nil || !ok || be.Op != token.EQL {
+		return fmt.Errorf("memmap.go: OpenFile: read-only handle condition not recognised")
+	}
+	if id, ok := be.X.(*ast.Ident); ok && id.Name == "flag" {
+		if v, err := evalConst(be.Y); err == nil && v == 0 {
+			add("memfs_access_mask", -1, "memmap.go OpenFile: read-only handle iff flag == os.O_RDONLY")
+		} else {
+			return fmt.Errorf("memmap.go: OpenFile: read-only handle condition not recognised")
+		}
+	} else if l, ok := be.X.(*ast.BinaryExpr); ok && l.Op == token.AND {
+		v, err := evalConst(l.Y)
+		z, err2 := evalConst(be.Y)
+		if err != nil || err2 != nil || z != 0 {
+			return fmt.Errorf("memmap.go: OpenFile: read-only handle condition not recognised")
+		}
+		add("memfs_access_mask", v, "memmap.go OpenFile: read-only handle iff flag&MASK == 0")
+	} else {
+		return fmt.Errorf("memmap.go: OpenFile: read-only handle condition not recognised")
+	}
+	// readonlyfs.go OpenFile write-flag mask
+	if ro, err := parseSrc(repo, "readonlyfs.go"); err != nil {
+		return err
+	} else {
+		fd := ro.fn("ReadOnlyFs", "OpenFile")
+		if fd == nil {
+			return fmt.Errorf("readonlyfs.go: ReadOnlyFs.OpenFile not found")
+		}
+		mk := flagMask(fd)
+		if mk == nil {
+			return fmt.Errorf("readonlyfs.go: OpenFile flag mask not found")
+		}
+		v, err := evalConst(mk)
+		if err != nil {
+			return fmt.Errorf("readonlyfs.go: OpenFile flag mask: %v", err)
+		}
+		add("readonly_mask", v, "readonlyfs.go OpenFile: EPERM iff flag&MASK != 0")
+	}
+	// mem/file.go FileInfo.Size: directory size literal
+	f, err := parseSrc(repo, "mem/file.go")
+	if err != nil {
+		return err
+	}
+	sz := f.fn("FileInfo", "Size")
+	if sz == nil {
+		return fmt.Errorf("mem/file.go: FileInfo.Size not found")
+	}
+	var dirSize int64 = -1
+	ast.Inspect(sz, func(n ast.Node) bool {
+		if bl, ok := n.(*ast.BasicLit); ok && bl.Kind == token.INT && dirSize < 0 {
+			dirSize, _ = strconv.ParseInt(bl.Value, 0, 64)
+		}
+		return true
+	})
+	if dirSize < 0 {
+		return fmt.Errorf("mem/file.go: directory size literal not found")
+	}
+	add("dir_size", dirSize, "mem/file.go FileInfo.Size of a directory")
+	return nil
 }
 
 // further extractors are registered by the files that need them
